@@ -49,6 +49,18 @@ void adapter_exec(Ev *ev)
         xfree(w);
         return;
     }
+    if (ev_is(ev, "crcbig")) {
+        /* crcbig c n mul add: a long buffer generated here (n even); octet variant, and word variant over the same image */
+        uint16_t c = (uint16_t)ev->a[0];
+        size_t n = (size_t)ev->a[1];
+        uint16_t *w = xblock(n);
+        uint8_t *b = (uint8_t *)w;
+        for (size_t i = 0; i < n; i++) b[i] = (uint8_t)((i * (size_t)ev->a[2] + (size_t)ev->a[3]) % 256);
+        obs(ev, ufw_crc16_arc(c, b, n));
+        obs(ev, ufw_crc16_arc_u16(c, w, n / 2));
+        xfree(w);
+        return;
+    }
     if (ev_is(ev, "table")) {
         size_t base = (size_t)ev->a[0];
         for (int i = 1; i < ev->na; i++) { T[base + (size_t)i - 1] = (uint16_t)ev->a[i]; loaded++; }
